@@ -30,7 +30,9 @@ pub fn crash_spec(r: &mut Rng, tid: i32, rsp: u64, rip: u64) -> CrashSpec {
         gregs,
         fp,
         signo: *r.pick(&[11u32, 6, 7, 4, 8]),
-        code: r.range(1, 8) as i32,
+        // kernel fault codes are small positive numbers; signals a process raised itself carry
+        // negative ones (SI_TKILL -6, SI_QUEUE -1, SI_TIMER -2), SI_USER is 0, SI_KERNEL 0x80
+        code: if r.chance(1, 4) { *r.pick(&[-6i32, -1, -2, 0, 0x80, i32::MIN, i32::MAX]) } else { r.range(1, 8) as i32 },
         addr: r.next(),
         tid,
     }
@@ -868,6 +870,17 @@ fn gen_c06(r: &mut Rng, seed: u64, idx: u64) -> Scenario {
                 reg.perms = "r--p".into();
                 if !tags.contains(&"readonly-stack".to_string()) {
                     tags.push("readonly-stack".into());
+                }
+            }
+        }
+        if !sweep && r.chance(1, 16) {
+            // an executable stack (-z execstack, READ_IMPLIES_EXEC, a runtime running threads on rwx memory)
+            if let Some(reg) = b.world.regions.iter_mut().find(|g| g.start == ss) {
+                if reg.perms == "rw-p" {
+                    reg.perms = "rwxp".into();
+                    if !tags.contains(&"executable-stack".to_string()) {
+                        tags.push("executable-stack".into());
+                    }
                 }
             }
         }
